@@ -172,6 +172,20 @@ def decode_chain(v):
 C09_ORIGIN = [0]
 
 
+class C09WeightAlgorithm:
+    """Stub weighting algorithm of the online ensemble: fixed dyadic weights; logs what it is shown."""
+    W = {1: [1.0], 2: [0.25, 0.75], 3: [0.25, 0.25, 0.5]}
+
+    def __init__(self, n):
+        self.weights = np.array(self.W[n])
+
+    def update(self, y_pred, y_true):
+        yt = [int(round(float(v))) for v in np.asarray(y_true).ravel()]
+        LOG.setdefault("c09", []).append(dict(
+            ev="ascore", who=0, rep=[], lo=yt[0] - 1000, hi=yt[-1] - 1000, upd=False,
+            x=[[int(round(float(v))) for v in r] for r in np.asarray(y_pred)], y=yt))
+
+
 def make_compose_stubs():
     """Leaf forecaster and tagging transformer for C09.  All events go to LOG["c09"] in call order."""
     import pandas as pd
